@@ -266,7 +266,9 @@ def _short(v):
 
 
 def key(s):
-    return (tuple(sorted(s.written.items(), key=str)), tuple(s.registered))
+    import hashlib
+    phys = tuple(sorted((n, hashlib.sha1(_blob_bytes(s, n) or b"").hexdigest()) for n in s.written))
+    return (tuple(sorted(s.written.items(), key=str)), tuple(s.registered), phys)
 
 
 WINDOWS = [
